@@ -407,12 +407,221 @@ theorem svHop_other (E : HEnv F D Mat Vec) (h : Heap F D Mat Vec) (s j : Nat) (g
     have hsep := hs i hc
     split
     · split
-      · rw [hop_other]
-        · exact h1v _ rfl rfl rfl rfl
-        · exact hsep
+      · split
+        · rw [hop_other]
+          · exact h1v _ rfl rfl rfl rfl
+          · exact hsep
+        · rfl
       · exact h1v _ rfl rfl rfl rfl
     · split
-      · exact hop_other E h i j _ hsep
+      · split
+        · exact hop_other E h i j _ hsep
+        · rfl
       · rfl
+
+/-- **A state frame change whose covariance cannot follow changes nothing** (since /repo 45ca5d0 the
+state is put back): state, covariance and every other object are as before -/
+theorem svHop_atomic (E : HEnv F D Mat Vec) (h : Heap F D Mat Vec) (s i : Nat) (g : F) (hc : (h.sv s).cov = some i)
+    (ht : (h.view E i).tag = .frame (h.sv s).frame) (hno : hopOk (h.view E i) (.frame g) = false) : h.svHop E s g = h := by
+  have key : ∀ (h1 : Heap F D Mat Vec), h1.view E i = h.view E i →
+      (if (h1.view E i).tag = .frame (h.sv s).frame then (if hopOk (h1.view E i) (.frame g) then h1.hop E i (.frame g) else h) else h1) = h := by
+    intro h1 e
+    rw [e, if_pos ht]
+    simp [hno]
+  unfold Heap.svHop
+  simp only [hc]
+  apply key
+  split <;> rfl
+
+/-! ### One statement for every operation -/
+
+/-- the operations of the heap model (what the correspondence drives the real classes through) -/
+inductive Op (F Mat : Type) where
+  | hop (i : Nat) (t : Tag F)
+  | svHop (s : Nat) (g : F)
+  | attach (s i : Nat)
+  | write (i : Nat) (g : Mat → Mat)
+  | newCov (s : Nat) (tag : Tag F) (c : Mat)
+  | fromCov (s i : Nat)
+  | map (i : Nat) (g : Mat → Mat)
+  | map2 (i j : Nat) (g : Mat → Mat → Mat)
+  | mkView (i : Nat) (flip : Bool)
+  | copyCov (i : Nat)
+  | pickle (i : Nat)
+
+def Heap.step (E : HEnv F D Mat Vec) (h : Heap F D Mat Vec) : Op F Mat → Heap F D Mat Vec
+  | .hop i t => h.hop E i t
+  | .svHop s g => h.svHop E s g
+  | .attach s i => h.attach s i
+  | .write i g => h.write E i g
+  | .newCov s tag c => h.newCov s tag c
+  | .fromCov s i => h.fromCov E s i
+  | .map i g => h.map E i g
+  | .map2 i j g => h.map2 E i j g
+  | .mkView i flip => h.mkView i flip
+  | .copyCov i => h.copyCov E i
+  | .pickle i => h.pickle E i
+
+/-- the operation names existing objects only -/
+def Op.valid (h : Heap F D Mat Vec) : Op F Mat → Prop
+  | .hop i _ => i < h.nobj
+  | .svHop s _ => ∀ i, (h.sv s).cov = some i → i < h.nobj
+  | .attach _ i => i < h.nobj
+  | .write i _ => i < h.nobj
+  | .newCov _ _ _ => True
+  | .fromCov _ i => i < h.nobj
+  | .map i _ => i < h.nobj
+  | .map2 i j _ => i < h.nobj ∧ j < h.nobj
+  | .mkView i _ => i < h.nobj
+  | .copyCov i => i < h.nobj
+  | .pickle i => i < h.nobj
+
+/-- the existing object whose cells the operation may write (none for the operations that only make a new object) -/
+def Op.writes (h : Heap F D Mat Vec) : Op F Mat → Option Nat
+  | .hop i _ => some i
+  | .svHop s _ => (h.sv s).cov
+  | .attach _ i => some i
+  | .write i _ => some i
+  | _ => none
+
+/-- the operation does not make a numpy view -/
+def Op.noView : Op F Mat → Prop
+  | .mkView _ _ => False
+  | _ => True
+
+/-- all existing objects are pairwise separate -/
+def AllSep (h : Heap F D Mat Vec) : Prop := ∀ a b, a < h.nobj → b < h.nobj → a ≠ b → Sep h a b
+
+theorem wf_write (E : HEnv F D Mat Vec) (h : Heap F D Mat Vec) (i : Nat) (g : Mat → Mat) (hw : WF h) : WF (h.write E i g) :=
+  ⟨hw.buf, hw.data, hw.orb⟩
+
+theorem wf_attach (h : Heap F D Mat Vec) (s i : Nat) (hw : WF h) : WF (h.attach s i) := by
+  refine ⟨hw.buf, hw.data, fun k hk => ?_⟩
+  show ((h.attach s i).data k).orb < h.norb + 1
+  simp only [Heap.attach, upd]
+  split
+  · exact Nat.lt_succ_self _
+  · exact Nat.lt_succ_of_lt (hw.orb k hk)
+
+theorem wf_svHop (E : HEnv F D Mat Vec) (h : Heap F D Mat Vec) (s : Nat) (g : F) (hw : WF h) : WF (h.svHop E s g) := by
+  unfold Heap.svHop
+  simp only
+  have hw1 : ∀ (h1 : Heap F D Mat Vec), h1.buf = h.buf → h1.data = h.data → h1.orb = h.orb → h1.obj = h.obj →
+      h1.nbuf = h.nbuf → h1.ndata = h.ndata → h1.norb = h.norb → h1.nobj = h.nobj → WF h1 := by
+    intro h1 a b c d e f g' i
+    exact ⟨fun j hj => by rw [d, e]; exact hw.buf j (i ▸ hj), fun j hj => by rw [d, f]; exact hw.data j (i ▸ hj),
+           fun k hk => by rw [b, g']; exact hw.orb k (f ▸ hk)⟩
+  cases (h.sv s).cov with
+  | none =>
+    simp only
+    split
+    · exact hw1 _ rfl rfl rfl rfl rfl rfl rfl rfl
+    · exact hw
+  | some i =>
+    simp only
+    split
+    · split
+      · split
+        · exact wf_hop E _ i _ (hw1 _ rfl rfl rfl rfl rfl rfl rfl rfl)
+        · exact hw
+      · exact hw1 _ rfl rfl rfl rfl rfl rfl rfl rfl
+    · split
+      · split
+        · exact wf_hop E _ i _ hw
+        · exact hw
+      · exact hw
+
+theorem svHop_obj (E : HEnv F D Mat Vec) (h : Heap F D Mat Vec) (s : Nat) (g : F) :
+    (h.svHop E s g).obj = h.obj ∧ (h.svHop E s g).nobj = h.nobj := by
+  unfold Heap.svHop
+  simp only
+  cases (h.sv s).cov with
+  | none => simp only; split <;> exact ⟨rfl, rfl⟩
+  | some i =>
+    simp only
+    split
+    · split
+      · split
+        · exact ⟨by rw [hop_obj], by rw [(hop_counters E _ i _).1]⟩
+        · exact ⟨rfl, rfl⟩
+      · exact ⟨rfl, rfl⟩
+    · split
+      · split
+        · exact ⟨by rw [hop_obj], by rw [(hop_counters E _ i _).1]⟩
+        · exact ⟨rfl, rfl⟩
+      · exact ⟨rfl, rfl⟩
+
+/-- well-formedness is an invariant of every operation -/
+theorem step_wf (E : HEnv F D Mat Vec) (h : Heap F D Mat Vec) (hw : WF h) (op : Op F Mat) (hv : op.valid h) : WF (h.step E op) := by
+  cases op with
+  | hop i t => exact wf_hop E h i t hw
+  | svHop s g => exact wf_svHop E h s g hw
+  | attach s i => exact wf_attach h s i hw
+  | write i g => exact wf_write E h i g hw
+  | newCov s tag c => exact (newCov_spec E h hw s tag c).1
+  | fromCov s i => exact (newCov_spec E h hw s _ _).1
+  | map i g => exact (derive_spec E h hw i hv _).1
+  | map2 i j g => exact (derive_spec E h hw i hv.1 _).1
+  | mkView i flip => exact (mkView_spec E h hw i hv flip).1
+  | copyCov i => exact (copyCov_spec E h hw i).1
+  | pickle i => exact (pickle_spec E h hw i).1
+
+/-- **Operations on one covariance leave every other covariance's observable state unchanged**:
+for EVERY operation of the model, every existing object `j` that shares neither memory nor dict
+with the object the operation writes (if it writes one at all) is observed exactly as before —
+tag, values, `_orb_frame`, private state copy. -/
+theorem step_other (E : HEnv F D Mat Vec) (h : Heap F D Mat Vec) (hw : WF h) (op : Op F Mat) (hv : op.valid h)
+    (j : Nat) (hj : j < h.nobj) (hs : ∀ i, op.writes h = some i → Sep h i j) : (h.step E op).view E j = h.view E j := by
+  cases op with
+  | hop i t => exact hop_other E h i j t (hs i rfl)
+  | svHop s g => exact svHop_other E h s j g hs
+  | attach s i => exact attach_other E h hw s i j hj (hs i rfl)
+  | write i g => exact write_other E h i j g (hs i rfl)
+  | newCov s tag c => exact (newCov_spec E h hw s tag c).2.2.1 j hj
+  | fromCov s i => exact (newCov_spec E h hw s _ _).2.2.1 j hj
+  | map i g => exact (derive_spec E h hw i hv _).2.2.1 j hj
+  | map2 i j' g => exact (derive_spec E h hw i hv.1 _).2.2.1 j hj
+  | mkView i flip => exact (mkView_spec E h hw i hv flip).2.1 j hj
+  | copyCov i => exact (copyCov_spec E h hw i).2.2.1 j hj
+  | pickle i => exact (pickle_spec E h hw i).2.2.1 j hj
+
+/-- pairwise separation is an invariant of every operation that does not make a numpy view: objects
+made by `Cov(...)`, `Cov.copy`, unpickling and by numpy with a fresh output buffer never share
+memory or dict with anything — so in a process that takes no views, `step_other` applies to every
+pair of covariances at every moment -/
+theorem step_allSep (E : HEnv F D Mat Vec) (h : Heap F D Mat Vec) (hw : WF h) (hall : AllSep h) (op : Op F Mat) (hv : op.valid h)
+    (hnv : op.noView) : AllSep (h.step E op) := by
+  -- operations that keep the object table
+  have keep : ∀ (h' : Heap F D Mat Vec), h'.obj = h.obj → h'.nobj = h.nobj → AllSep h' := by
+    intro h' ho hn a b ha hb hab
+    unfold Sep; rw [ho]
+    exact hall a b (hn ▸ ha) (hn ▸ hb) hab
+  -- operations that add one object, separate from the old ones, and keep the old entries
+  have grow : ∀ (h' : Heap F D Mat Vec), h'.nobj = h.nobj + 1 → (∀ k, k < h.nobj → h'.obj k = h.obj k) →
+      (∀ k, k < h.nobj → Sep h' h.nobj k) → AllSep h' := by
+    intro h' hn hold hnew a b ha hb hab
+    rw [hn] at ha hb
+    by_cases haN : a = h.nobj
+    · have hbN : b < h.nobj := Nat.lt_of_le_of_ne (Nat.lt_succ_iff.mp hb) (fun e => hab (haN.trans e.symm))
+      rw [haN]; exact hnew b hbN
+    · have ha' : a < h.nobj := Nat.lt_of_le_of_ne (Nat.lt_succ_iff.mp ha) haN
+      by_cases hbN : b = h.nobj
+      · rw [hbN]; exact ⟨Ne.symm (hnew a ha').1, Ne.symm (hnew a ha').2⟩
+      · have hb' : b < h.nobj := Nat.lt_of_le_of_ne (Nat.lt_succ_iff.mp hb) hbN
+        unfold Sep; rw [hold a ha', hold b hb']
+        exact hall a b ha' hb' hab
+  have old : ∀ (o : Obj F) (k : Nat), k < h.nobj → upd h.obj h.nobj o k = h.obj k := fun o k hk => upd_other _ _ (Nat.ne_of_lt hk)
+  cases op with
+  | hop i t => exact keep _ (hop_obj E h i t) (hop_counters E h i t).1
+  | svHop s g => exact keep _ (svHop_obj E h s g).1 (svHop_obj E h s g).2
+  | attach s i => exact keep _ rfl rfl
+  | write i g => exact keep _ rfl rfl
+  | newCov s tag c => exact grow _ rfl (old _) (newCov_spec E h hw s tag c).2.2.2.1
+  | fromCov s i => exact grow _ rfl (old _) (newCov_spec E h hw s _ _).2.2.2.1
+  | map i g => exact grow _ rfl (old _) (derive_spec E h hw i hv _).2.2.2.1
+  | map2 i j g => exact grow _ rfl (old _) (derive_spec E h hw i hv.1 _).2.2.2.1
+  | mkView i flip => exact absurd hnv id
+  | copyCov i => exact grow _ rfl (old _) (copyCov_spec E h hw i).2.2.2.1
+  | pickle i => exact grow _ rfl (old _) (pickle_spec E h hw i).2.2.2.1
 
 end BeyondVerif.CovHeap
